@@ -46,12 +46,15 @@ class C16:
         if multi:
             channels = rng.choice([['red', 'green'], ['red', 'green', 'blue'],
                                    ['green', 'blue']])
+            # dictionaries are keyed by channel: their key order is free
+            def keyed(lo, hi):
+                items = [[c, rfloat(rng, lo, hi, 3)] for c in channels]
+                rng.shuffle(items)
+                return {'dict': items}
             if rng.random() < 0.6:
-                optics['illum_wavelen'] = {'dict': [
-                    [c, rfloat(rng, 0.4, 0.7, 3)] for c in channels]}
+                optics['illum_wavelen'] = keyed(0.4, 0.7)
             if rng.random() < 0.5:
-                optics['noise_sd'] = {'dict': [
-                    [c, rfloat(rng, 0.01, 0.3, 3)] for c in channels]}
+                optics['noise_sd'] = keyed(0.01, 0.3)
         dtype = rng.choice(['float64', 'float64', 'float32', 'uint8',
                             'int32', 'uint16'])
         return {'shape': shape, 'spacing': spacing,
@@ -220,6 +223,13 @@ class C16:
                         o.pop(kk)
                 if rng.random() < 0.4:
                     o['noise_sd'] = rfloat(rng, 0.01, 0.5, 3)
+                if iargs is not None and iargs.get('channels') and \
+                        rng.random() < 0.6:
+                    items = [[c_, rfloat(rng, 0.01, 0.9, 3)]
+                             for c_ in iargs['channels']]
+                    rng.shuffle(items)
+                    o[rng.choice(['noise_sd', 'illum_wavelen'])] = \
+                        {'dict': items}
                 if not o:
                     o = {'medium_index': 1.5}
                 new = b.emit('update_metadata', {'img': img, 'optics': o},
@@ -276,6 +286,10 @@ class C16:
                 if tags.get('save'):
                     fs.setdefault(ev['args']['path'], {})['ack'] = None
                 continue
+            if ev['op'] == 'image' and rec['outcome'] == 'ok':
+                self._check_channel_meta(ex, ev, rec['payload'],
+                                         ev['args'].get('optics') or {},
+                                         'construct')
             if ev['op'] == 'image' and rec['outcome'] == 'exc':
                 ex.add(violation(
                     'C16.construct', ev['id'],
@@ -586,6 +600,37 @@ class C16:
                                  'two file orders give different averages',
                                  sig='C16.average:order'))
 
+    def _check_channel_meta(self, ex, ev, p, optics, what):
+        """Per-channel metadata given as {channel: value}: every channel
+        carries its own value, whatever the order of the keys."""
+        if not O.is_da(p):
+            return True
+        at = attrs_plain(p)
+        for k, v in optics.items():
+            if not (isinstance(v, dict) and 'dict' in v):
+                continue
+            ex.stats['oracle_sim'] += 1
+            got = at.get(k)
+            if not O.is_da(got) or 'illumination' not in got['coords']:
+                ex.add(violation(
+                    'C16.channels', ev['id'],
+                    '%s: per-channel %s is not labelled by channel' % (
+                        what, k), sig='C16.channels:%s:%s' % (what, k)))
+                return False
+            labels = [str(x) for x in np.asarray(
+                got['coords']['illumination']['values']).tolist()]
+            vals = np.asarray(got['values'], float).reshape(-1).tolist()
+            have = dict(zip(labels, vals))
+            for ch, want in v['dict']:
+                if ch not in have or have[ch] != want:
+                    ex.add(violation(
+                        'C16.channels', ev['id'],
+                        '%s: %s of channel %r is %r, the dictionary says %r'
+                        % (what, k, ch, have.get(ch), want),
+                        sig='C16.channels:%s:%s' % (what, k)))
+                    return False
+        return True
+
     def _check_update(self, ex, ev, rec):
         ex.stats['oracle_sim'] += 1
         if rec['outcome'] != 'ok':
@@ -609,6 +654,8 @@ class C16:
                              'or name', sig='C16.update:data'))
             return
         o = ev['args']['optics']
+        if not self._check_channel_meta(ex, ev, gp, o, 'update'):
+            return
         sa, ga = attrs_plain(sp), attrs_plain(gp)
         for k in ('medium_index', 'illum_wavelen', 'illum_polarization',
                   'noise_sd'):
@@ -623,6 +670,8 @@ class C16:
                             'polarization not normalised to %r' % want,
                             sig='C16.update:polarization'))
                         return
+                elif isinstance(o[k], dict):
+                    continue          # judged by _check_channel_meta
                 else:
                     gv = ga.get(k)
                     gv = gv['v'] if isinstance(gv, dict) and \
